@@ -7,8 +7,11 @@
    ready cases over ctx.Done() terminates (Go's select is fair), promptness, the Go runtime, timers,
    database/sql and the WebSocket library. *)
 From Moc Require Import Base Proc ProcProofs Session SessionProofs.
-From Moc.Gen Require Import GenSession.
+From Coq Require String.
+From Moc Require Import LockOrder LockOrderProofs.
+From Moc.Gen Require Import GenSession GenLockOrder.
 Import ListNotations.
+Import String.StringSyntax.
 Open Scope nat_scope.
 
 (** ** Generic: guarded networks after cancellation *)
@@ -164,3 +167,106 @@ Theorem C13_ping_deadline_always : forall ping st, (st > 0)%Z -> g_ping_deadline
 Proof. intros ping st H. rewrite g_ping_deadline_guard_spec. apply Z.gtb_lt. lia. Qed.
 Print Assumptions C13_ping_deadline_always.
 
+(** ** No deadlock among the locks of the shared stores (LockOrder.v) *)
+(** The process-network theorems above treat a critical section as one step; this section is about
+    the waits for the locks themselves: the router registry subs.subs (a safeMap of safeMaps),
+    EventCache.mu and the per-session mutex of the max-subscriptions middleware.  The model has any
+    number of threads and locks and the writer preference of sync.RWMutex (a queued writer blocks
+    later readers).  Not proved: that the Go code acquires locks only where the syntactic
+    translator (gen/anchors_lockorder.go) sees an acquisition. *)
+
+(** the tie to the source: every place where a lock is acquired while another one is held goes
+    strictly upward in the level order with known levels, and no blocking operation (channel
+    send/receive, select without default, sendCtx-style helper, ...) happens with a lock held *)
+Theorem C13_lock_order_table_ok : lock_order_ok g_lock_nest = true.
+Proof. exact lock_order_table_ok. Qed.
+Print Assumptions C13_lock_order_table_ok.
+
+Theorem C13_no_blocking_under_lock_table : g_lock_blocking_under_lock = [].
+Proof. exact lock_blocking_table_empty. Qed.
+Print Assumptions C13_no_blocking_under_lock_table.
+
+(** a program that, with locks held, requests only what a table satisfying the obligation lists
+    reaches only disciplined states (whoever waits, waits strictly above everything it holds) ... *)
+Theorem C13_lock_discipline_invariant : forall lv tbl blk s s',
+  lock_order_ok tbl = true -> lo_disciplined lv s -> lo_steps lv tbl blk s s' -> lo_disciplined lv s'.
+Proof. exact lo_steps_disciplined. Qed.
+Print Assumptions C13_lock_discipline_invariant.
+
+(** ... in particular with the tables extracted from the source, from the initial state; and nobody
+    is blocked outside the locks while it holds one *)
+Theorem C13_lock_discipline_of_source : forall lv s,
+  lo_steps lv g_lock_nest g_lock_blocking_under_lock lo_init s ->
+  lo_disciplined lv s /\ lo_no_block_under_lock s.
+Proof. exact lo_program_invariant. Qed.
+Print Assumptions C13_lock_discipline_of_source.
+
+(** the general theorem: a disciplined state has no wait-for cycle (t1 waits for a lock held by -
+    or, the mutex preferring writers, queued for in write mode before it by - t2, ..., tk waits for
+    t1), by the strict increase of (level, arrival) along the chain *)
+Theorem C13_no_lock_cycle : forall lv s, lo_disciplined lv s -> ~ lo_wait_cycle s.
+Proof. exact lo_no_wait_cycle. Qed.
+Print Assumptions C13_no_lock_cycle.
+
+(** the same for the exact relation of sync.RWMutex (readers do not block readers) *)
+Theorem C13_no_lock_cycle_rwmutex : forall lv s, lo_disciplined lv s -> ~ lo_wait_cycle_rw s.
+Proof. exact lo_no_wait_cycle_rw. Qed.
+Print Assumptions C13_no_lock_cycle_rwmutex.
+
+(** no deadlocked set: in every non-empty set of threads somebody is not blocked by a member *)
+Theorem C13_no_deadlocked_set : forall lv s S, lo_disciplined lv s -> ~ lo_deadlocked_set s S.
+Proof. exact lo_no_deadlocked_set. Qed.
+Print Assumptions C13_no_deadlocked_set.
+
+(** progress: if S lists the threads that wait for a lock, one of them is blocked only by threads
+    that run (they neither wait for a lock nor sit in a blocking operation) *)
+Theorem C13_lock_wait_progress : forall lv s S,
+  lo_disciplined lv s -> lo_no_block_under_lock s -> S <> [] ->
+  (forall t, In t S <-> exists w, lot_wait (s t) = Some w) ->
+  exists t, In t S /\ forall u, lo_blocked_by s t u -> lot_wait (s u) = None /\ lot_ext (s u) = false.
+Proof. exact lo_wait_progress. Qed.
+Print Assumptions C13_lock_wait_progress.
+
+Theorem C13_registry_never_deadlocks : forall lv s,
+  lo_steps lv g_lock_nest g_lock_blocking_under_lock lo_init s ->
+  ~ lo_wait_cycle s /\ ~ lo_wait_cycle_rw s /\ forall S, ~ lo_deadlocked_set s S.
+Proof. exact lo_program_no_deadlock. Qed.
+Print Assumptions C13_registry_never_deadlocks.
+
+(** the theorem has teeth.  The inversion "Unsubscribe holds a connection's map and asks for the
+    registry while Publish holds the registry and asks for the map" is a cycle of the exact mutex
+    relation, no assignment of levels makes it disciplined, and its table entry is rejected *)
+Example C13_example_lock_inversion :
+  lo_wait_cycle_rw lo_ex_inversion /\
+  (forall lv, ~ lo_disciplined lv lo_ex_inversion) /\
+  lock_order_ok [(lo_name "subscribers.Unsubscribe", (1, 0, 2))%Z] = false.
+Proof. exact (conj lo_ex_inversion_cycle (conj lo_ex_inversion_undisciplined lo_ex_inversion_table)). Qed.
+
+(** a reader that asks for its read lock again (findNeedLock calling Len) behind a queued writer:
+    a cycle; without the writer nobody blocks it - the writer preference is what makes it deadly *)
+Example C13_example_reentrant_read_lock :
+  lo_wait_cycle_rw lo_ex_reentrant /\
+  (forall lv, ~ lo_disciplined lv lo_ex_reentrant) /\
+  lock_order_ok [(lo_name "EventCache.findNeedLock", (10, 10, 1))%Z] = false /\
+  (forall u, ~ lo_blocked_by_rw lo_ex_reentrant_alone 0 u).
+Proof.
+  exact (conj lo_ex_reentrant_cycle (conj lo_ex_reentrant_undisciplined
+          (conj lo_ex_reentrant_table lo_ex_reentrant_alone_free))).
+Qed.
+
+(** a nesting whose level the translator cannot derive is rejected, not accepted *)
+Example C13_example_unknown_level_rejected :
+  lock_order_ok [(lo_name "f", (0, -1, 2))%Z] = false /\ lock_order_ok [(lo_name "f", (-1, 1, 1))%Z] = false.
+Proof. exact lo_ex_unknown_table. Qed.
+
+(** the hypotheses are satisfiable: with the nesting of Publish a publisher reaches the state in
+    which it holds the registry and waits for a connection's map while an UnsubscribeAll is queued
+    for the registry in write mode; that state is disciplined *)
+Example C13_example_publish_nesting_reachable :
+  lock_order_ok lo_ex_publish_table = true /\
+  exists s, lo_steps lo_ex_lv lo_ex_publish_table [] lo_init s /\
+            lot_held (s 0) = [(0, LoRd)] /\
+            lot_wait (s 0) = Some (mkLoWait 1 LoRd 3) /\
+            lot_wait (s 1) = Some (mkLoWait 0 LoWr 2) /\
+            lo_disciplined lo_ex_lv s.
+Proof. exact lo_ex_publish_reachable. Qed.
